@@ -47,18 +47,18 @@ DiagVal(i, pl) ==
   CASE pl = 1 -> <<D(2), D(4), D(1), D(2)>>[i]
     [] pl = 2 -> <<D(4), D(1), D(2), H(1, 1)>>[i]
     [] OTHER  -> <<D(1), D(2), D(4), D(4)>>[i]
-Mat(nn, pat, pl) == [i \in 1..nn |-> [j \in 1..nn |->
-                       IF i = j THEN DiagVal(i, pl) ELSE IF <<i, j>> \in pat THEN OffVal(i, j, pl) ELSE Zero]]
-DiagVec(nn, pl) == [i \in 1..nn |-> <<H(1, 1), D(-2), D(3), H(3, 2)>>[((i + pl) % 4) + 1]]
+Mat(nn, pat, pl) == Tup(nn, LAMBDA i : Tup(nn, LAMBDA j :
+                       IF i = j THEN DiagVal(i, pl) ELSE IF <<i, j>> \in pat THEN OffVal(i, j, pl) ELSE Zero))
+DiagVec(nn, pl) == Tup(nn, LAMBDA i : <<H(1, 1), D(-2), D(3), H(3, 2)>>[((i + pl) % 4) + 1])
 NextPal(pl) == (pl % 3) + 1
 AOf(c) == Mat(n, P, IF c = 1 THEN pal ELSE NextPal(pal))
 DOf(c) == DiagVec(n, IF c = 1 THEN pal ELSE NextPal(pal))
 
 \* test vectors: the unit vectors, a generic vector g and 2g - e_1 (linearity)
-Unit(nn, k) == [i \in 1..nn |-> IF i = k THEN One ELSE Zero]
-Gen(nn) == [i \in 1..nn |-> <<D(1), D(-2), D(3), H(1, 1)>>[i]]
-Tests(nn) == [k \in 1..(nn + 2) |-> IF k <= nn THEN Unit(nn, k)
-                                    ELSE IF k = nn + 1 THEN Gen(nn) ELSE VSub(VScale(D(2), Gen(nn)), Unit(nn, 1))]
+Unit(nn, k) == Tup(nn, LAMBDA i : IF i = k THEN One ELSE Zero)
+Gen(nn) == Tup(nn, LAMBDA i : <<D(1), D(-2), D(3), H(1, 1)>>[i])
+Tests(nn) == Tup(nn + 2, LAMBDA k : IF k <= nn THEN Unit(nn, k)
+                                    ELSE IF k = nn + 1 THEN Gen(nn) ELSE VSub(VScale(D(2), Gen(nn)), Unit(nn, 1)))
 
 Omegas == {H(1, 1), One, H(3, 1)}
 Params(kd) ==
@@ -69,17 +69,17 @@ Params(kd) ==
     [] OTHER        -> {[w |-> One, m |-> 0, p |-> 0]}
 
 \* ---- Part 1: the operators -----------------------------------------------------------------------------
-Filt(v, FF) == [i \in 1..Len(v) |-> IF i \in FF THEN Zero ELSE v[i]]
+Filt(v, FF) == Tup(Len(v), LAMBDA i : IF i \in FF THEN Zero ELSE v[i])
 
 \* code: inv_diag := omega / d (component_invert), result := inv_diag * b
-JacobiOp(nn, A, w, b) == [i \in 1..nn |-> Mul(Div(w, A[i][i]), b[i])]
+JacobiOp(nn, A, w, b) == Tup(nn, LAMBDA i : Mul(Div(w, A[i][i]), b[i]))
 
 \* (D/omega + L) x = b:  x_k = omega (b_k - sum_{j<k} a_kj x_j) / a_kk
 RECURSIVE SorX(_, _, _, _, _)
 SorX(nn, A, w, b, k) ==
   IF k = 0 THEN <<>>
   ELSE LET x == SorX(nn, A, w, b, k - 1)
-           s == DSum([j \in 1..(k - 1) |-> Mul(A[k][j], x[j])])
+           s == DSumTo(LAMBDA j : Mul(A[k][j], x[j]), k - 1)
        IN Append(x, Div(Mul(w, Sub(b[k], s)), A[k][k]))
 SorOp(nn, A, w, b) == SorX(nn, A, w, b, nn)
 
@@ -88,19 +88,20 @@ RECURSIVE SsorY(_, _, _, _, _)
 SsorY(nn, A, w, b, k) ==
   IF k = 0 THEN <<>>
   ELSE LET y == SsorY(nn, A, w, b, k - 1)
-           s == DSum([j \in 1..(k - 1) |-> Mul(A[k][j], y[j])])
+           s == DSumTo(LAMBDA j : Mul(A[k][j], y[j]), k - 1)
        IN Append(y, Div(Sub(b[k], Mul(w, s)), A[k][k]))
+\* backward sweep: returns the full-length tuple whose entries k..nn are final (entries below k are y)
 RECURSIVE SsorBack(_, _, _, _, _)
-SsorBack(nn, A, w, y, k) ==      \* function on k..nn
-  IF k > nn THEN [i \in {} |-> Zero]
+SsorBack(nn, A, w, y, k) ==
+  IF k > nn THEN y
   ELSE LET xs == SsorBack(nn, A, w, y, k + 1)
-           s == DSum([t \in 1..(nn - k) |-> Mul(A[k][k + t], xs[k + t])])
+           s == DSumTo(LAMBDA t : Mul(A[k][k + t], xs[k + t]), nn - k)
            xk == Sub(y[k], Div(Mul(w, s), A[k][k]))
-       IN [i \in k..nn |-> IF i = k THEN xk ELSE xs[i]]
+       IN Tup(nn, LAMBDA i : IF i = k THEN xk ELSE xs[i])
 SsorOp(nn, A, w, b) ==
   LET y == SsorY(nn, A, w, b, nn)
       x == SsorBack(nn, A, w, y, 1)
-  IN [i \in 1..nn |-> Mul(Mul(w, Sub(D(2), w)), x[i])]
+  IN VScale(Mul(w, Sub(D(2), w)), x)
 
 \* c_0 = z = omega Dd^-1 b;  c_i = c_{i-1} + z - omega Dd^-1 F(A c_{i-1})
 \* (Ad supplies the cached diagonal, Al the matrix that is multiplied with)
@@ -116,10 +117,10 @@ PolyOp(nn, Ad, Al, w, m, b, FF) == PolyC(nn, Ad, Al, w, JacobiOp(nn, Ad, w, b), 
 BIG == 99
 RECURSIVE LevAfter(_, _, _)
 LevAfter(nn, pat, j) ==
-  IF j = 0 THEN [i \in 1..nn |-> [k \in 1..nn |-> IF i = k \/ <<i, k>> \in pat THEN 0 ELSE BIG]]
+  IF j = 0 THEN Tup(nn, LAMBDA i : Tup(nn, LAMBDA k : IF i = k \/ <<i, k>> \in pat THEN 0 ELSE BIG))
   ELSE LET l == LevAfter(nn, pat, j - 1)
-       IN [i \in 1..nn |-> [k \in 1..nn |->
-            IF i > j /\ k > j /\ l[i][j] + l[j][k] + 1 < l[i][k] THEN l[i][j] + l[j][k] + 1 ELSE l[i][k]]]
+       IN Tup(nn, LAMBDA i : Tup(nn, LAMBDA k :
+            IF i > j /\ k > j /\ l[i][j] + l[j][k] + 1 < l[i][k] THEN l[i][j] + l[j][k] + 1 ELSE l[i][k]))
 IluPattern(nn, pat, p) == LET l == LevAfter(nn, pat, nn) IN {ik \in (1..nn) \X (1..nn) : l[ik[1]][ik[2]] <= p}
 
 \* numeric: IKJ elimination of row i with the pivots j < i of the pattern, updates restricted to the pattern.
@@ -129,35 +130,34 @@ IluRow(nn, Q, Udone, row, i, j) ==        \* Udone: finished rows 1..i-1 (multip
   IF j = i THEN row
   ELSE IF <<i, j>> \notin Q THEN IluRow(nn, Q, Udone, row, i, j + 1)
   ELSE LET l == IF IsPow2(Udone[j][j]) THEN Div(row[j], Udone[j][j]) ELSE Inexact
-           r2 == [k \in 1..nn |-> IF k = j THEN l
+           r2 == Tup(nn, LAMBDA k : IF k = j THEN l
                                   ELSE IF k > j /\ <<i, k>> \in Q /\ <<j, k>> \in Q THEN Sub(row[k], Mul(l, Udone[j][k]))
-                                  ELSE row[k]]
+                                  ELSE row[k])
        IN IluRow(nn, Q, Udone, r2, i, j + 1)
 RECURSIVE IluRows(_, _, _, _)
 IluRows(nn, A, Q, i) ==
   IF i = 0 THEN <<>>
   ELSE LET prev == IluRows(nn, A, Q, i - 1)
-           row0 == [k \in 1..nn |-> IF <<i, k>> \in Q THEN A[i][k] ELSE Zero]
+           row0 == Tup(nn, LAMBDA k : IF <<i, k>> \in Q THEN A[i][k] ELSE Zero)
        IN Append(prev, IluRow(nn, Q, prev, row0, i, 1))
 IluFactor(nn, A, Q) == IluRows(nn, A, Q, nn)
-IluL(nn, LU) == [i \in 1..nn |-> [j \in 1..nn |-> IF j < i THEN LU[i][j] ELSE IF j = i THEN One ELSE Zero]]
-IluU(nn, LU) == [i \in 1..nn |-> [j \in 1..nn |-> IF j >= i THEN LU[i][j] ELSE Zero]]
+IluL(nn, LU) == Tup(nn, LAMBDA i : Tup(nn, LAMBDA j : IF j < i THEN LU[i][j] ELSE IF j = i THEN One ELSE Zero))
+IluU(nn, LU) == Tup(nn, LAMBDA i : Tup(nn, LAMBDA j : IF j >= i THEN LU[i][j] ELSE Zero))
 RECURSIVE IluFwd(_, _, _, _)
 IluFwd(nn, LU, b, k) ==
   IF k = 0 THEN <<>>
   ELSE LET y == IluFwd(nn, LU, b, k - 1)
-       IN Append(y, Sub(b[k], DSum([j \in 1..(k - 1) |-> Mul(LU[k][j], y[j])])))
+       IN Append(y, Sub(b[k], DSumTo(LAMBDA j : Mul(LU[k][j], y[j]), k - 1)))
 RECURSIVE IluBack(_, _, _, _)
 IluBack(nn, LU, y, k) ==
-  IF k > nn THEN [i \in {} |-> Zero]
+  IF k > nn THEN y
   ELSE LET xs == IluBack(nn, LU, y, k + 1)
-           s == DSum([t \in 1..(nn - k) |-> Mul(LU[k][k + t], xs[k + t])])
+           s == DSumTo(LAMBDA t : Mul(LU[k][k + t], xs[k + t]), nn - k)
            xk == IF IsPow2(LU[k][k]) THEN Div(Sub(y[k], s), LU[k][k]) ELSE Inexact
-       IN [i \in k..nn |-> IF i = k THEN xk ELSE xs[i]]
+       IN Tup(nn, LAMBDA i : IF i = k THEN xk ELSE xs[i])
 IluOp(nn, A, pat, p, b) ==
   LET LU == IluFactor(nn, A, IluPattern(nn, pat, p))
-      x == IluBack(nn, LU, IluFwd(nn, LU, b, nn), 1)
-  IN [i \in 1..nn |-> x[i]]
+  IN IluBack(nn, LU, IluFwd(nn, LU, b, nn), 1)
 
 \* operator of the preconditioner with the values `c` (1 = initial, 2 = updated), before the correction filter
 RawOp(kd, pr, c, b) ==
@@ -168,7 +168,7 @@ RawOp(kd, pr, c, b) ==
     [] kd = "poly"     -> PolyOp(n, A, A, pr.w, pr.m, b, F)
     [] kd = "ilu"      -> IluOp(n, A, P, pr.p, b)
     [] kd = "scale"    -> VScale(pr.w, b)
-    [] kd = "diagonal" -> [i \in 1..n |-> Mul(DOf(c)[i], b[i])]
+    [] kd = "diagonal" -> VMul(DOf(c), b)
     [] kd = "matrix"   -> MatVec(n, A, b)
 Op(c, b) == Filt(RawOp(kind, par, c, b), F)
 \* what PolynomialPrecond computes between an update and the next init_numeric
@@ -214,7 +214,7 @@ InitNumeric  == Enabled("IN") /\ life \in {"symbolic", "numeric"} /\ life' = "nu
                 /\ UNCHANGED <<n, P, pal, kind, par, F, cur>>
 \* one Apply call per test vector; exp[k] = set of allowed results for test vector k
 Apply        == Enabled("AP") /\ life = "numeric"
-                /\ Rec("AP", [k \in 1..(n + 2) |-> Allowed(atInit, cur, Tests(n)[k])])
+                /\ Rec("AP", Tup(n + 2, LAMBDA k : Allowed(atInit, cur, Tests(n)[k])))
                 /\ UNCHANGED <<n, P, pal, kind, par, F, life, cur, atInit>>
 UpdateValues == Enabled("UP") /\ cur' = 3 - cur /\ Rec("UP", <<>>) /\ UNCHANGED <<n, P, pal, kind, par, F, life, atInit>>
 DoneNumeric  == Enabled("DN") /\ life = "numeric" /\ life' = "symbolic" /\ atInit' = 0 /\ Rec("DN", <<>>)
@@ -226,34 +226,34 @@ Next == InitSymbolic \/ InitNumeric \/ Apply \/ UpdateValues \/ DoneNumeric \/ D
 Spec == Init /\ [][Next]_vars
 
 \* ---- Part 3: sanity laws of the definitions (evaluated on every generated input) ----------------------------
-LowerOf(A) == [i \in 1..n |-> [j \in 1..n |-> IF j < i THEN A[i][j] ELSE Zero]]
-UpperOf(A) == [i \in 1..n |-> [j \in 1..n |-> IF j > i THEN A[i][j] ELSE Zero]]
-DiagOf(A) == [i \in 1..n |-> [j \in 1..n |-> IF j = i THEN A[i][j] ELSE Zero]]
-MAdd(A, B) == [i \in 1..n |-> [j \in 1..n |-> Add(A[i][j], B[i][j])]]
-MScale(a, A) == [i \in 1..n |-> [j \in 1..n |-> Mul(a, A[i][j])]]
+LowerOf(A) == Tup(n, LAMBDA i : Tup(n, LAMBDA j : IF j < i THEN A[i][j] ELSE Zero))
+UpperOf(A) == Tup(n, LAMBDA i : Tup(n, LAMBDA j : IF j > i THEN A[i][j] ELSE Zero))
+DiagOf(A) == Tup(n, LAMBDA i : Tup(n, LAMBDA j : IF j = i THEN A[i][j] ELSE Zero))
+MAdd(A, B) == Tup(n, LAMBDA i : Tup(n, LAMBDA j : Add(A[i][j], B[i][j])))
+MScale(a, A) == Tup(n, LAMBDA i : Tup(n, LAMBDA j : Mul(a, A[i][j])))
 \* the textbook relations, independent of the substitution order used above
-SorRelation == kind = "sor" => \A c \in {1, 2}, k \in 1..(n + 2) :
+SorRelation == hist = <<>> /\ kind = "sor" => \A c \in {1, 2}, k \in 1..(n + 2) :
    LET A == AOf(c)  b == Tests(n)[k]  x == RawOp(kind, par, c, b) IN
      \* (D/w + L) x = b, multiplied by w (1/w is not dyadic for w = 3/2)
      MatVec(n, MAdd(DiagOf(A), MScale(par.w, LowerOf(A))), x) = VScale(par.w, b)
-SsorRelation == kind = "ssor" => \A c \in {1, 2}, k \in 1..(n + 2) :
+SsorRelation == hist = <<>> /\ kind = "ssor" => \A c \in {1, 2}, k \in 1..(n + 2) :
    LET A == AOf(c)  b == Tests(n)[k]  x == RawOp(kind, par, c, b)
        Dm == DiagOf(A)  w == par.w
-       Dinv == [i \in 1..n |-> [j \in 1..n |-> IF i = j THEN Div(One, A[i][i]) ELSE Zero]]
+       Dinv == Tup(n, LAMBDA i : Tup(n, LAMBDA j : IF i = j THEN Div(One, A[i][i]) ELSE Zero))
        \* (D + wL) D^-1 (D + wU) x = w (2 - w) b
        lhs == MatVec(n, MAdd(Dm, MScale(w, LowerOf(A))), MatVec(n, Dinv, MatVec(n, MAdd(Dm, MScale(w, UpperOf(A))), x)))
    IN lhs = VScale(Mul(w, Sub(D(2), w)), b)
-JacobiRelation == kind = "jacobi" => \A c \in {1, 2}, k \in 1..(n + 2) :
+JacobiRelation == hist = <<>> /\ kind = "jacobi" => \A c \in {1, 2}, k \in 1..(n + 2) :
    LET A == AOf(c)  b == Tests(n)[k]  x == RawOp(kind, par, c, b) IN MatVec(n, DiagOf(A), x) = VScale(par.w, b)
 \* ILU: L U equals A on the level-p pattern; the pattern contains the pattern of A and grows with p;
 \* complete fill (p >= n - 2 suffices for n <= 4) gives A^-1
-IluLaws == kind = "ilu" => \A c \in {1, 2} :
+IluLaws == hist = <<>> /\ kind = "ilu" => \A c \in {1, 2} :
    LET A == AOf(c)  Q == IluPattern(n, P, par.p)  LU == IluFactor(n, A, Q)
        prod == MatMul(n, IluL(n, LU), IluU(n, LU))
    IN /\ \A ik \in Q : prod[ik[1]][ik[2]] = A[ik[1]][ik[2]]
       /\ P \subseteq Q /\ (par.p > 0 => IluPattern(n, P, par.p - 1) \subseteq Q)
       /\ (Q = IluPattern(n, P, n) => \A k \in 1..(n + 2) : MatVec(n, A, RawOp(kind, par, c, Tests(n)[k])) = Tests(n)[k])
-Linearity == \A c \in {1, 2} :
+Linearity == hist = <<>> => \A c \in {1, 2} :
    LET T == Tests(n) IN Op(c, T[n + 2]) = VSub(VScale(D(2), Op(c, T[n + 1])), Op(c, T[1]))
 LifeOK == life \in {"created", "symbolic", "numeric"} /\ (life = "numeric" <=> atInit # 0)
 
@@ -261,11 +261,11 @@ LifeOK == life \in {"created", "symbolic", "numeric"} /\ (life = "numeric" <=> a
 Final == IF Mode = "canon" THEN Len(hist) = Len(Canon) ELSE Len(hist) = MaxHist
 SetSeq(S) == LET RECURSIVE Go(_) Go(T) == IF T = {} THEN <<>> ELSE LET x == CHOOSE y \in T : TRUE IN <<x>> \o Go(T \ {x}) IN Go(S)
 IluInfo(c) == LET Q == IluPattern(n, P, par.p)  LU == IluFactor(n, AOf(c), Q)
-              IN [pat |-> [i \in 1..n |-> [j \in 1..n |-> IF <<i, j>> \in Q THEN 1 ELSE 0]],
+              IN [pat |-> Tup(n, LAMBDA i : Tup(n, LAMBDA j : IF <<i, j>> \in Q THEN 1 ELSE 0)),
                   lu |-> MatMul(n, IluL(n, LU), IluU(n, LU))]
 Emit == Final =>
   PrintT(ToJson([n |-> n, kind |-> kind, w |-> par.w, m |-> par.m, p |-> par.p, F |-> SetSeq(F),
-                 pat |-> [i \in 1..n |-> [j \in 1..n |-> IF i = j \/ <<i, j>> \in P THEN 1 ELSE 0]],
+                 pat |-> Tup(n, LAMBDA i : Tup(n, LAMBDA j : IF i = j \/ <<i, j>> \in P THEN 1 ELSE 0)),
                  A1 |-> AOf(1), A2 |-> AOf(2), d1 |-> DOf(1), d2 |-> DOf(2), tests |-> Tests(n),
                  ilu1 |-> IF kind = "ilu" THEN IluInfo(1) ELSE [pat |-> <<>>, lu |-> <<>>],
                  ilu2 |-> IF kind = "ilu" THEN IluInfo(2) ELSE [pat |-> <<>>, lu |-> <<>>],
